@@ -18,7 +18,8 @@ NATIVE_PY = os.environ.get('PYVC_NATIVE_PY', '/venv/bin/python')
 
 
 def _verify_one(args):
-  kind, name, prop, timeout_ms = args
+  kind, name, prop, timeout_ms = args[:4]
+  recheck = len(args) > 4 and args[4]
   sys.path.insert(0, VERIF)
   from pyvc.world import World
   from pyvc.contracts import Registry
@@ -28,18 +29,18 @@ def _verify_one(args):
     W = World(REPO)
     if kind == 'fn':
       c = [c for c in R.for_prop(prop) if c.key == name][0]
-      r = verify_function(W, R, c, prop, timeout_ms)
+      r = verify_function(W, R, c, prop, timeout_ms, recheck=recheck)
       extra = dict(replay=c.replay, bounded=c.bounded, note=c.note)
     else:
       l = [l for l in R.lemmas if l.name == name and l.prop == prop][0]
-      r = prove_lemma(W, R, l, prop, timeout_ms)
+      r = prove_lemma(W, R, l, prop, timeout_ms, recheck=recheck)
       extra = dict(replay=None, bounded=None, note=l.note)
     return dict(
         kind=kind, target=r.target, status=r.status, error=r.error, paths=r.paths, secs=round(r.secs, 3),
         hash=r.hash, lines=r.lines, inlined=sorted(r.inlined), used_contracts=sorted(r.used_contracts),
         dropped=sorted(r.dropped), exits=r.exits, covers=r.covers, **extra,
         obligations=[dict(name=o.name, kind=o.kind, result=o.result, secs=round(o.secs, 4), backend=o.backend,
-                          text=o.info.get('text'), loopfree=o.loopfree, abstracted=o.abstracted,
+                          text=o.info.get('text'), loopfree=o.loopfree, abstracted=o.abstracted, cvc5=o.info.get('cvc5'),
                           witness=o.info.get('witness'), model=o.info.get('model')) for o in r.obligations])
   except Exception:   # pylint: disable=broad-exception-caught
     return dict(kind=kind, target=name, status='error', error=traceback.format_exc(), paths=0, secs=0, hash=None,
@@ -109,8 +110,9 @@ def main(argv=None):
   from pyvc.contracts import Registry
   R = Registry().load_dir(os.path.join(VERIF, 'contracts'), only=[prop])
   timeout_ms = 20000 if tier == 'quick' else 120000
-  jobs = [('fn', c.key, prop, timeout_ms) for c in R.for_prop(prop)]
-  jobs += [('lemma', l.name, prop, timeout_ms) for l in R.lemmas if l.prop == prop]
+  recheck = tier == 'thorough'       # thorough: every z3-discharged obligation is re-proved by cvc5 on the SMT-LIB dump
+  jobs = [('fn', c.key, prop, timeout_ms, recheck) for c in R.for_prop(prop)]
+  jobs += [('lemma', l.name, prop, timeout_ms, recheck) for l in R.lemmas if l.prop == prop]
   if not jobs and not R.bounded_checks.get(prop):
     print(f'CHECKER-ERROR property={prop}: no contracts registered')
     return 3
@@ -233,7 +235,24 @@ def main(argv=None):
       bounded_done.add(name)
       run_bounded(name, f'stand-in: {desc}')
 
-  # ---- thorough: independent re-proof by cvc5 is done inside workers? (kept simple: sample) ----
+  # ---- thorough: independent re-proof by cvc5 (done in the workers) and mutation self-test of the contracts ----
+  cross = None
+  mutation = None
+  if tier == 'thorough' and jobs:
+    rechecked = [o for r in results for o in r['obligations'] if o['result'] == 'unsat' and o['backend'] != 'cvc5']
+    agree = sum(1 for o in rechecked if o.get('cvc5') == 'unsat')
+    disagree = [o['name'] for o in rechecked if o.get('cvc5') == 'sat']
+    cross = dict(rechecked=len(rechecked), cvc5_unsat=agree, cvc5_no_answer=sum(1 for o in rechecked if o.get('cvc5') is None), cvc5_sat=disagree)
+    for name in disagree:          # the two solvers contradict each other: nothing this run says can be trusted
+      broken.append(f'z3 discharged {name} but cvc5 finds a model')
+    try:
+      sys.path.insert(0, os.path.join(VERIF, 'tools'))
+      import mutation_selftest
+      m = mutation_selftest.selftest(prop, cap=int(os.environ.get('PYVC_MUTANTS', '6')), timeout_ms=10000, jobs=a.jobs)
+      mutation = dict(mutants=m['mutants'], killed=m['killed'],
+                      survivors={k.split('::')[-1]: f['survivors'] for k, f in m['functions'].items() if f['survivors']})
+    except Exception:   # pylint: disable=broad-exception-caught
+      mutation = dict(error=traceback.format_exc()[-500:])
   wall = time.time() - t0
   n_obl = sum(len(r['obligations']) for r in results)
   n_dis = sum(1 for r in results for o in r['obligations'] if o['result'] == 'unsat')
@@ -301,6 +320,10 @@ def main(argv=None):
       known_findings_seen=[f['id'] for f in known_seen],
       proof_lost=proof_lost, undecided=undecided,
   )
+  if cross is not None:
+    coverage['cvc5_cross_check'] = cross
+  if mutation is not None:
+    coverage['mutation_self_test'] = mutation
   level = 'proof'
   if not jobs:
     # no function of this property is under contract (yet): the bounded stand-ins are all there is
